@@ -155,6 +155,68 @@ def show_val(v):
     return repr(v)
 
 
+
+# ----------------------------------------------------------------------------- recording wrappers
+
+class Recorder:
+    """Records, independently of the registries kept by the objects themselves,
+       (a) every FrozenClass.add_attr(cls, key): which class an extra attribute was declared for, and
+       (b) every RegisterParams._makeAttributeAndRegister(obj, *names, readOnly=...) call of every object.
+    Installed before the first controller is built, removed at the end of run()."""
+
+    def __init__(self):
+        self.attrs = {}     # frozen class -> [keys declared through add_attr]
+        self.calls = {}     # id(object) -> [(names, readOnly)]
+        self.keep = []      # keeps recorded objects alive (ids stay unique)
+        self.installed = False
+
+    def install(self):
+        from pySDC.helpers.pysdc_helper import FrozenClass
+        from pySDC.core.common import RegisterParams
+        rec = self
+        self._orig_add = FrozenClass.__dict__['add_attr']
+        self._orig_reg = RegisterParams.__dict__['_makeAttributeAndRegister']
+        orig_add = self._orig_add.__func__
+        orig_reg = self._orig_reg
+
+        def add_attr(cls, key, raise_error_if_exists=False):
+            lst = rec.attrs.setdefault(cls, [])
+            if key not in lst:
+                lst.append(key)
+            return orig_add(cls, key, raise_error_if_exists)
+
+        def _makeAttributeAndRegister(self_, *names, localVars=None, readOnly=False):
+            if id(self_) not in rec.calls:
+                rec.keep.append(self_)
+            rec.calls.setdefault(id(self_), []).append((tuple(names), bool(readOnly)))
+            return orig_reg(self_, *names, localVars=localVars, readOnly=readOnly)
+
+        # state present before recording started (normally none: nothing is declared at import time)
+        def subclasses(c):
+            for sc in c.__subclasses__():
+                yield sc
+                yield from subclasses(sc)
+        for sc in subclasses(FrozenClass):
+            if getattr(sc, 'attrs', None):
+                self.attrs.setdefault(sc, list(sc.attrs))
+        FrozenClass.add_attr = classmethod(add_attr)
+        RegisterParams._makeAttributeAndRegister = _makeAttributeAndRegister
+        self.installed = True
+
+    def uninstall(self):
+        if self.installed:
+            from pySDC.helpers.pysdc_helper import FrozenClass
+            from pySDC.core.common import RegisterParams
+            FrozenClass.add_attr = self._orig_add
+            RegisterParams._makeAttributeAndRegister = self._orig_reg
+            self.installed = False
+
+    def declared(self, cls):
+        return list(self.attrs.get(cls, []))
+
+
+REC = Recorder()
+
 # ----------------------------------------------------------------------------- classes used
 
 from pySDC.implementations.problem_classes.TestEquation_0D import testequation0d
@@ -1060,7 +1122,7 @@ def part_frozen(ck, CL):
                     ops.append(('set', rng.choice(['get', 'attrs', '_freeze', 'add_attr'])))
                 else:
                     ops.append(('has', rng.choice(fresh_added + ['verif_undeclared_%d' % counter[0]] + fields[:2])))
-            scripts.append((name, obj, list(cls.attrs), classnames, fields, ops))
+            scripts.append((name, obj, REC.declared(cls), classnames, fields, ops))
     # model
     terms = []
     for name, obj, attrs, classnames, fields, ops in scripts:
@@ -1068,15 +1130,8 @@ def part_frozen(ck, CL):
                         for o in ops])
         terms.append('({| fz_attrs := %s; fz_class := %s; fz_fields := %s; fz_frozen := true |}, %s)'
                      % (coq_list([cstr(a) for a in attrs]), coq_list([cstr(a) for a in classnames]), coq_list([cstr(a) for a in fields]), opt))
-    # read-only parameters
-    prob = L.prob
-    ro = sorted(prob._parNamesReadOnly)
-    rw = sorted(prob._parNames)
-    other = ['verif_new_attribute', 'work_counters']
-    rp_names = ro + rw + other
     src = [HEADER, 'Definition scripts : list (frozen * list fz_op) := [\n' + ';\n'.join('  ' + t for t in terms) + '\n].\n',
-           'Eval vm_compute in map (fun s => fz_run (fst s) (snd s)) scripts.\n',
-           'Eval vm_compute in map (rp_setattr %s) %s.\n' % (coq_list([cstr(a) for a in ro]), coq_list([cstr(a) for a in rp_names]))]
+           'Eval vm_compute in map (fun s => fz_run (fst s) (snd s)) scripts.\n']
     rc, out = ck.coqc(ck.write_gen('Cases_frozen.v', ''.join(src)), timeout=900)
     if rc != 0:
         ck.obligation('Cases_frozen.v evaluates', False, out[-1500:])
@@ -1132,29 +1187,218 @@ def part_frozen(ck, CL):
                 except Exception:
                     pass
     ck.obligation('fz_run (Coq model) = FrozenClass behaviour on %d scripts' % len(scripts), nbad == 0)
-    # read-only problem parameters on every level of every step
-    mro = [(m[1] if isinstance(m, tuple) else None) for m in vals[1]]
-    nro = 0
-    for St in C.MS:
-        for Lv in St.levels:
-            P = Lv.prob
-            for k, m in zip(rp_names, mro):
-                before = getattr(P, k, None)
+# ----------------------------------------------------------------------------- part 5: attributes declared for one holder stay with it
+
+def part_holders(ck, CL):
+    """Names declared through add_attr (add_status_variable_to_step / _to_level of the convergence
+    controllers) must be accepted on the holder class they were declared for and rejected on every other
+    frozen holder (step status vs level status vs the various params objects ...)."""
+    import importlib
+    from pySDC.implementations.controller_classes.controller_nonMPI import controller_nonMPI
+    pkg = 'pySDC.implementations.convergence_controller_classes.'
+
+    def cc(mod, name):
+        return getattr(importlib.import_module(pkg + mod), name)
+    setups = [
+        ({cc('adaptivity', 'Adaptivity'): {'e_tol': 1e-6}}, {'restol': -1.0}, 1),
+        ({cc('estimate_contraction_factor', 'EstimateContractionFactor'): {}, cc('step_size_limiter', 'StepSizeLimiter'): {'dt_max': 1.0},
+          cc('interpolate_between_restarts', 'InterpolateBetweenRestarts'): {}}, {}, 2),
+        ({cc('estimate_polynomial_error', 'EstimatePolynomialError'): {}, cc('crash', 'StopAtNan'): {}}, {}, 1),
+        ({cc('estimate_embedded_error', 'EstimateEmbeddedErrorCollocation'): {}}, {'restol': 1e-9}, 2),
+    ]
+    controllers = []
+    for user, lp, nlev in setups:
+        d = base_descr(CL, convergence_controllers={c: dict(p) for c, p in user.items()}, level_params=dict({'dt': 0.1}, **lp))
+        if nlev > 1:
+            d['sweeper_params'] = {'num_nodes': [3, 2], 'quad_type': 'RADAU-RIGHT', 'QI': 'IE'}
+            d['space_transfer_class'] = CL['T'][0]
+        with Capture():
+            try:
+                controllers.append(controller_nonMPI(2, {'logger_level': 30, 'mssdc_jac': False}, d))
+            except Exception as e:
+                ck.notes.append('part_holders: setup %s not constructible (%s: %s)' % ([c.__name__ for c in user], type(e).__name__, str(e)[:80]))
+    holders = []     # (name, object)
+    for ci, C in enumerate(controllers):
+        holders.append(('controller.params', C.params))
+        for cv in C.convergence_controllers:
+            holders.append(('%s.params' % type(cv).__name__, cv.params))
+            if hasattr(cv, 'status') and hasattr(type(cv.status), 'attrs'):
+                holders.append(('%s.status' % type(cv).__name__, cv.status))
+        for si, S in enumerate(C.MS):
+            holders += [('step.status', S.status), ('step.params', S.params), ('step', S)]
+            if S.base_transfer is not None:
+                holders += [('base_transfer.params', S.base_transfer.params), ('space_transfer.params', S.base_transfer.space_transfer.params)]
+            for L in S.levels:
+                holders += [('level.status', L.status), ('level.params', L.params), ('sweeper.params', L.sweep.params), ('level', L)]
+    declared = {cls: list(keys) for cls, keys in REC.attrs.items()}
+    names = sorted({k for keys in declared.values() for k in keys if not k.startswith('verif_')})
+    never = ['verif_never_declared_a', 'verif_never_declared_b']
+    ck.cov['declared_status_variables'] = {('%s.%s' % (c.__module__.split('.')[-1], c.__name__)): [k for k in keys if not k.startswith('verif_')]
+                                           for c, keys in declared.items()}
+    nbad = 0
+    seen = set()
+    for hname, h in holders:
+        cls = type(h)
+        own = set(declared.get(cls, []))
+        fields = set(vars(h).keys())
+        on_class = set(dir(cls))
+        for k in names + never:
+            expect_ok = k in own or k in fields or k in on_class
+            had = k in fields
+            try:
+                setattr(h, k, vars(h).get(k))
+                got_ok, exc = True, None
+            except Exception as e:
+                got_ok, exc = False, type(e).__name__
+            if got_ok and not had:
                 try:
-                    setattr(P, k, before)
-                    r = None
-                except Exception as e:
-                    r = type(e).__name__
-                nro += 1
-                ck.case(key=('readonly', k), nontrivial=True)
-                rep = {'problem': type(P).__name__, 'attribute': k, 'implementation': r, 'model': m, 'read_only': ro}
-                if k in ro and r is None:
-                    ck.violation('read-only problem parameter %s can be changed' % k, rep, match={'kind': 'read-only', 'attribute': k})
-                elif r != m:
-                    ck.violation('RegisterParams.__setattr__(%s): %s, model %s' % (k, r, m), rep,
-                                 match={'kind': 'read-only-correspondence', 'attribute': k}, no_input=(k not in ro))
-    ck.cov['read_only_parameters'] = ro
-    ck.obligation('rp_setattr (Coq model) = RegisterParams behaviour on %d assignments' % nro, True)
+                    object.__delattr__(h, k)
+                except Exception:
+                    pass
+            key = (hname, k, expect_ok)
+            if key not in seen:
+                seen.add(key)
+                ck.case(key=('holder',) + key, nontrivial=True)
+            else:
+                ck.evaluations += 1
+            if got_ok != expect_ok or (not got_ok and exc != 'TypeError'):
+                nbad += 1
+                declared_for = ['%s.%s' % (c.__module__.split('.')[-1], c.__name__) for c, keys in declared.items() if k in keys]
+                rep = {'holder': hname, 'holder_class': '%s.%s' % (cls.__module__, cls.__name__), 'attribute': k, 'declared_for': declared_for,
+                       'accepted': got_ok, 'exception': exc, 'expected_accepted': expect_ok,
+                       'how': 'controller_nonMPI with convergence controllers %s; then setattr(%s, %r, ...)' % (
+                           sorted({type(c).__name__ for C in controllers for c in C.convergence_controllers}), hname, k)}
+                if got_ok and not expect_ok:
+                    ck.violation('attribute %r, declared only for %s, is accepted on %s (%s)' % (k, declared_for or 'nobody', hname, rep['holder_class']), rep,
+                                 match={'kind': 'frozen', 'object': hname.split('.')[-1], 'what': 'cross-holder-accepted', 'holder': hname})
+                else:
+                    ck.violation('attribute %r declared for %s is rejected on it (%s)' % (k, hname, exc), rep,
+                                 match={'kind': 'frozen', 'object': hname.split('.')[-1], 'what': 'declared-rejected', 'holder': hname})
+                if nbad > 12:
+                    break
+        if nbad > 12:
+            break
+    ck.traces += len(controllers)
+    ck.obligation('declared attributes accepted on their holder class only (%d holders x %d names)' % (len(holders), len(names) + len(never)), nbad == 0)
+
+
+# ----------------------------------------------------------------------------- part 6: read-only registry = union over all registration calls
+
+def part_readonly(ck, CL):
+    from pySDC.implementations.controller_classes.controller_nonMPI import controller_nonMPI
+    import importlib
+    probs = []      # (label, problem, calls)
+    with Capture():
+        C1 = controller_nonMPI(2, {'logger_level': 30},
+                               base_descr(CL, problem_params={'lambdas': [np.array([-1.0]), np.array([-2.0])], 'u0': 1.0}, space_transfer_class=CL['T'][0]))
+        C2 = controller_nonMPI(2, {'logger_level': 30},
+                               base_descr(CL, problem_class=[CL['H'][0], CL['H'][1]], problem_params={'nvars': [15, 7], 'nu': 0.5, 'freq': 2, 'bc': 'dirichlet-zero'},
+                                          space_transfer_class=CL['T'][0]))
+    for C in (C1, C2):
+        for si, S in enumerate(C.MS):
+            for li, L in enumerate(S.levels):
+                # steps > 0 are dill copies (no __init__): they must carry what the original of the same level registered
+                calls = REC.calls.get(id(C.MS[0].levels[li].prob), [])
+                probs.append(('%s MS[%d].levels[%d].prob' % (type(L.prob).__name__, si, li), L.prob, calls))
+    standalone = [('AdvectionEquation_ND_FD', 'advectionNd', {'nvars': 16, 'bc': 'periodic'}),
+                  ('HeatEquation_ND_FD', 'heatNd_forced', {'nvars': 15, 'bc': 'dirichlet-zero', 'freq': 2}),
+                  ('Van_der_Pol_implicit', 'vanderpol', {}), ('LogisticEquation', 'logistics_equation', {}),
+                  ('AllenCahn_1D_FD', 'allencahn_front_fullyimplicit', {'nvars': 15}),
+                  ('AllenCahn_1D_FD', 'allencahn_front_semiimplicit', {'nvars': 15}),
+                  ('AllenCahn_1D_FD', 'allencahn_periodic_fullyimplicit', {'nvars': 16}),
+                  ('HeatEquation_ND_FD', 'heatNd_unforced', {'nvars': (8, 8), 'freq': (2, 2)}),
+                  ('Auzinger_implicit', 'auzinger', {}), ('PenningTrap_3D', 'penningtrap', None)]
+    for mod, name, kw in standalone:
+        if kw is None:
+            continue
+        try:
+            with Capture():
+                P = getattr(importlib.import_module('pySDC.implementations.problem_classes.' + mod), name)(**kw)
+        except Exception as e:
+            ck.notes.append('part_readonly: %s not constructible here (%s)' % (name, type(e).__name__))
+            continue
+        probs.append((name, P, REC.calls.get(id(P), [])))
+    # model: registries as union over the recorded calls
+    sigs = []
+    for _, P, calls in probs:
+        if calls not in sigs:
+            sigs.append(calls)
+    src = [HEADER, 'Definition callsets : list (list (list string * bool)) := %s.\n' % coq_list(
+        [coq_list(['(%s, %s)' % (coq_list([cstr(n) for n in names]), 'true' if ro else 'false') for names, ro in calls]) for calls in sigs]),
+        'Eval vm_compute in map (fun c => (rp_register c, map (rp_setattr (fst (rp_register c))) (rp_params c ++ ["verif_new_attribute"; "work_counters"]%list))) callsets.\n']
+    rc, out = ck.coqc(ck.write_gen('Cases_readonly.v', ''.join(src)), timeout=600)
+    if rc != 0:
+        ck.obligation('Cases_readonly.v evaluates', False, out[-1500:])
+        ck.violation('generated Coq cases do not compile', {'log': out[-3000:]}, match={'kind': 'gen'}, no_input=True)
+        return
+    mres = parse_coq_value(eval_outputs(out)[0])
+    nbad = 0
+    nas = 0
+    hist = {}
+    for label, P, calls in probs:
+        mro, mrw, mverd = mres[sigs.index(calls)]
+        mro, mrw = list(mro), list(mrw)
+        cname = type(P).__name__
+        exp_ro = [n for names, ro in calls if ro for n in names]
+        exp_rw = [n for names, ro in calls if not ro for n in names]
+        hist[cname] = {'registration_calls': len(calls), 'read_only': sorted(set(exp_ro))}
+        rep0 = {'problem': label, 'class': '%s.%s' % (type(P).__module__, cname),
+                'registration_calls': [[list(n), ro] for n, ro in calls]}
+        ck.case(key=('readonly-registry', cname, len(calls)), nontrivial=len(calls) >= 1)
+        if not calls:
+            ck.violation('no registration call recorded for %s' % label, rep0, match={'kind': 'read-only-recording', 'class': cname}, no_input=True)
+            continue
+        bad_here = False
+        # oracle 1: every name registered by ANY call is listed in params
+        try:
+            pkeys = set(P.params.keys())
+        except Exception as e:
+            pkeys = set()
+            ck.violation('%s.params raised %s' % (label, type(e).__name__), rep0, match={'kind': 'read-only', 'what': 'params-raise', 'class': cname})
+            bad_here = True
+        missing = sorted(set(exp_ro + exp_rw) - pkeys)
+        if missing and not bad_here:
+            bad_here = True
+            ck.violation('registered parameters %s are missing from %s.params' % (missing, label), dict(rep0, params=sorted(pkeys)),
+                         match={'kind': 'read-only', 'what': 'params-incomplete', 'class': cname})
+        # oracle 2: assigning any read-only name raises ReadOnlyError; other names are assignable
+        for k in exp_ro + exp_rw + ['verif_new_attribute', 'work_counters']:
+            before = getattr(P, k, None)
+            try:
+                setattr(P, k, before)
+                r = None
+            except Exception as e:
+                r = type(e).__name__
+            nas += 1
+            ck.case(key=('readonly', cname, k), nontrivial=True)
+            m_ = mverd[(mro + mrw + ['verif_new_attribute', 'work_counters']).index(k)]
+            m_ = m_[1] if isinstance(m_, tuple) else None
+            rep = dict(rep0, attribute=k, implementation=r, model=m_)
+            if k in exp_ro and r is None:
+                bad_here = True
+                ck.violation('read-only problem parameter %s of %s can be changed (registered read-only by call %d of %d)'
+                             % (k, label, [i for i, (n, ro) in enumerate(calls) if ro and k in n][0] + 1, len(calls)), rep,
+                             match={'kind': 'read-only', 'attribute': k, 'class': cname})
+            elif r != m_:
+                bad_here = True
+                ck.violation('RegisterParams.__setattr__(%s) on %s: %s, model %s' % (k, label, r, m_), rep,
+                             match={'kind': 'read-only-correspondence', 'attribute': k, 'class': cname}, no_input=(k not in exp_ro))
+            if r is None and k == 'verif_new_attribute':
+                try:
+                    object.__delattr__(P, k)
+                except Exception:
+                    pass
+        # correspondence: the instance's registries are the model's unions
+        if not bad_here and (set(mro) != set(P._parNamesReadOnly) or set(mrw) != set(P._parNames)):
+            bad_here = True
+            ck.violation('registries of %s differ from the union over its registration calls' % label,
+                         dict(rep0, read_only=sorted(P._parNamesReadOnly), model_read_only=sorted(set(mro)), others=sorted(P._parNames), model_others=sorted(set(mrw))),
+                         match={'kind': 'read-only-correspondence', 'what': 'registry', 'class': cname}, no_input=True)
+        nbad += bad_here
+    ck.traces += len(probs)
+    ck.cov['read_only_parameters'] = hist
+    ck.obligation('rp_register/rp_setattr (Coq model) = RegisterParams on %d problems (%d assignments); every read-only name of the class hierarchy rejected'
+                  % (len(probs), nas), nbad == 0)
 
 
 # ----------------------------------------------------------------------------- entry
@@ -1176,8 +1420,15 @@ def run(ck):
                'convergence controllers: random dependency forests of synthetic classes + subsets of the real classes; '
                'frozen classes: random scripts per real params/status object')
     ck.check_props(required=['C20_levels_eq_longest_list', 'C20_entry_selection', 'C20_scalar_shared',
-                             'C20_controllers_sorted_unique', 'C20_validate_complete_partial'])
+                             'C20_controllers_sorted_unique', 'C20_validate_complete_partial', 'C20_readonly_union_over_calls'])
     CL = classes()
-    part_descriptions(ck, CL)
-    part_controllers(ck, CL)
-    part_frozen(ck, CL)
+    REC.__init__()
+    REC.install()      # before the first controller / problem is built
+    try:
+        part_descriptions(ck, CL)
+        part_controllers(ck, CL)
+        part_frozen(ck, CL)
+        part_holders(ck, CL)
+        part_readonly(ck, CL)
+    finally:
+        REC.uninstall()
